@@ -744,10 +744,9 @@ def _r3(ctx):
     if f is None or agg is None:
         raise AnalysisError("rebin helpers interval_overlap / aggregate_hist not found")
     ref, test = f.params
-    ov = [s_ for s_ in f.node.body if isinstance(s_, ast.Assign) and isinstance(s_.targets[0], ast.Name)]
+    from ..astutil import inline_single_defs
     ret = [s_ for s_ in f.node.body if isinstance(s_, ast.Return)][-1]
-    if len(ov) != 1:
-        raise AnalysisError("interval_overlap: overlap definition not found")
+    full_ret = inline_single_defs(f.node, ret.value)        # temporaries expanded: one expression in the interval edges
 
     def leaf(x):
         if isinstance(x, ast.Attribute) and isinstance(x.value, ast.Name) and x.value.id in (ref, test):
@@ -756,8 +755,6 @@ def _r3(ctx):
                 return who + x.attr[0]
             if x.attr == "length":
                 return RF.sym(who + "r") - RF.sym(who + "l")
-        if isinstance(x, ast.Name) and x.id == ov[0].targets[0].id:
-            return None
         return None
     syms = ["sl", "sr", "tl", "tr"]
     n_cases = 0
@@ -797,9 +794,7 @@ def _r3(ctx):
             return None
         tr = Translator(atom=leaf_c, order=order, positive=lambda x: None)
         try:
-            overlap = tr.tr(ov[0].value)
-            share = Translator(atom=lambda x: (overlap if isinstance(x, ast.Name) and x.id == ov[0].targets[0].id else leaf_c(x)),
-                               order=order).tr(ret.value)
+            share = tr.tr(full_ret)
         except NFUnsupported as e:
             raise AnalysisError("interval_overlap outside the fragment: %s" % e)
 
